@@ -8,6 +8,8 @@ from harness.c01 import iso_floor, cont_value, near_edge, FAMILIES
 
 from deeprob.spn.structure.node import assign_ids
 from deeprob.spn.structure.cltree import BinaryCLT
+from deeprob.spn.structure.node import Sum, Product
+from deeprob.spn.structure.leaf import Bernoulli
 from deeprob.spn.algorithms.inference import likelihood, log_likelihood
 
 
@@ -149,11 +151,35 @@ def check_net(ctx, root, ncols, rs, n_pat, n_val, tag):
                 return
 
 
+def after_em(ctx, root, ncols, rs):
+    """history: the parameters were updated by EM steps before the queries (a fitted / trained model is still a model)"""
+    from deeprob.spn.learning.em import expectation_maximization
+    order = S.children_first(root)[0]
+    dom = S.domain_of(order)
+    data = np.zeros((40, ncols), dtype=np.float32)
+    for v in range(ncols):
+        if v < len(dom) and dom[v] > 0:
+            data[:, v] = rs.randint(dom[v], size=40)
+    if isinstance(root, BinaryCLT):
+        stats = rs.rand(40).astype(np.float32) + 0.1
+        for _ in range(2):
+            root.em_step(stats, data[:, root.scope], float(rs.choice([0.3, 0.9])))
+    else:
+        expectation_maximization(root, data, num_iter=2, batch_perc=0.5, step_size=float(rs.choice([0.3, 0.9])), random_init=False,
+                                 random_state=int(rs.randint(1000)), verbose=False)
+
+
 def run(ctx):
     n_nets = 400 if ctx.tier == 'quick' else 6000
     n_pat = 32 if ctx.tier == 'quick' else 64
     for k in range(n_nets):
         root, ncols, rs = gen_case(ctx, k)
+        if k % 5 == 2 and all(isinstance(n, (Sum, Product, Bernoulli, BinaryCLT)) for n in S.children_first(root)[0]):
+            try:
+                after_em(ctx, root, ncols, rs)
+                ctx.count('models-queried-after-EM-updates')
+            except Exception as ex:
+                ctx.count('em-did-not-run')
         check_net(ctx, root, ncols, rs, n_pat, 2 if ctx.tier == 'quick' else 3, f'net{k}')
         if ctx.n_new() >= 3:
             break
